@@ -23,7 +23,8 @@ RULE = ("(packets) every offered cipher (7 with this backend) + none x MAC (5 of
         "every length 0..2*blocksize+1, one of 70000 bytes, and pairs/triples over {0, pad-min, pad-max, 300 zeros, 300 pseudo-random} bytes, "
         "delivered whole, byte-at-a-time and with every single cut (singles up to blocksize+1) or every cut next to a "
         "block / MAC / packet boundary (pairs); the cut region starts at the NEWKEYS packet so key switch and data may "
-        "share a segment. (handshake) 7 banner variants x 4 IGNORE-payload variants before the version line / NEWKEYS, "
+        "share a segment; a re-key (second KEXINIT/NEWKEYS, both sides switch via nextEncryptions + _newKeys()) to the same, "
+        "a different and a compression-flipped configuration in mid-stream with payloads after it. (handshake) 7 banner variants x 4 IGNORE-payload variants before the version line / NEWKEYS, "
         "whole, bytewise, every 1-cut and every 2-cut through the version line. (tamper) every MAC configuration: every "
         "byte of a 1- and a 2-packet keyed stream XOR {0x01, 0x80}, whole and bytewise, followed by up to 1.1 MiB of "
         "further traffic so that an enlarged length field is satisfied. Oracle: dispatched (type, payload) list equals "
@@ -168,9 +169,13 @@ def receiver_class():
 
             def dispatchMessage(self, messageNum, payload):
                 self.got.append((messageNum, bytes(payload)))
-                if messageNum == MSG_NEWKEYS and not self.switched:
-                    self.switched = True
-                    switch_keys(self, self.cfg, "R", self.seed)
+                if messageNum == MSG_KEXINIT and self.switched:
+                    # re-key started by the peer: like ssh_KEXINIT, answer with our own KEXINIT
+                    self.sendKexInit()
+                if messageNum == MSG_NEWKEYS and self.switched < len(self.cfgs):
+                    c = self.cfgs[self.switched]
+                    self.switched += 1
+                    switch_keys(self, c, "R", self.seed + 50 * (self.switched - 1))
         _cls["R"] = Receiver
     return _cls["R"]
 
@@ -197,13 +202,14 @@ class Stream:
     """Sender side: the byte stream and where its parts are."""
 
 
-def build_stream(cfg, banners, pre, post, seed):
+def build_stream(cfg, banners, pre, post, seed, rekey=None):
     t = _tw()
     install_random(seed)
     S = t.SSHTransportBase()
     S.isClient = True
     ts = MemTransport()
     S.makeConnection(ts)
+    first_kex = S.ourKexInitPayload[1:]
     for p in pre:
         S.sendPacket(MSG_IGNORE, p)
     S.sendPacket(MSG_NEWKEYS, b"")
@@ -211,7 +217,17 @@ def build_stream(cfg, banners, pre, post, seed):
     switch_keys(S, cfg, "S", seed)
     for p in post:
         S.sendPacket(MSG_DATA, p)
+    post2 = []
+    if rekey is not None:
+        cfg2, post2 = rekey
+        S.sendKexInit()                      # re-key: KEXINIT and NEWKEYS travel under the current keys
+        kex2 = S.ourKexInitPayload[1:]
+        S.sendPacket(MSG_NEWKEYS, b"")
+        switch_keys(S, cfg2, "S", seed + 50)
+        for p in post2:
+            S.sendPacket(MSG_DATA, p)
     st = Stream()
+    st.cfgs = [cfg] + ([rekey[0]] if rekey is not None else [])
     ban = b"".join(banners)
     st.banner_len = len(ban)
     chunks = list(ts.written)
@@ -220,6 +236,8 @@ def build_stream(cfg, banners, pre, post, seed):
     st.marks = []
     pos = len(ban)
     labels = ["version", "kexinit"] + ["pre%d" % i for i in range(len(pre))] + ["newkeys"] + ["post%d" % i for i in range(len(post))]
+    if rekey is not None:
+        labels += ["post-kexinit2", "post-newkeys2"] + ["rekeyed%d" % i for i in range(len(post2))]
     if len(labels) != len(chunks):
         raise RuntimeError("sender wrote %d chunks, expected %d" % (len(chunks), len(labels)))
     for lab, ch in zip(labels, chunks):
@@ -228,16 +246,21 @@ def build_stream(cfg, banners, pre, post, seed):
     st.version_end = st.marks[0][2]
     st.newkeys_start = st.marks[nk - 1][1]
     st.keyed_start = st.marks[nk - 1][2]
-    st.expected = ([(MSG_KEXINIT, S.ourKexInitPayload[1:])] + [(MSG_IGNORE, p) for p in pre]
+    st.expected = ([(MSG_KEXINIT, first_kex)] + [(MSG_IGNORE, p) for p in pre]
                    + [(MSG_NEWKEYS, b"")] + [(MSG_DATA, p) for p in post])
+    st.n_before_rekeyed = None
+    if rekey is not None:
+        st.expected += [(MSG_KEXINIT, kex2), (MSG_NEWKEYS, b"")]
+        st.n_before_rekeyed = len(st.expected)
+        st.expected += [(MSG_DATA, p) for p in post2]
     st.n_before_keyed = 2 + len(pre)      # KEXINIT, IGNOREs, NEWKEYS
     return st
 
 
-def receive(cfg, seed, segments, tail=None):
+def receive(cfg, seed, segments, tail=None, cfgs=None):
     install_random(seed + 101)
     R = receiver_class()()
-    R.cfg, R.seed, R.got, R.switched = cfg, seed, [], False
+    R.cfgs, R.seed, R.got, R.switched = (cfgs or [cfg]), seed, [], 0
     tr = MemTransport()
     R.makeConnection(tr)
     for seg in segments:
@@ -298,11 +321,11 @@ def diff_class(got, exp):
 
 def check_delivery(stats, cfg, st, lo, cuts, bytewise, seed, fam, wit):
     segs = cuts_to_segments(st, lo, cuts, bytewise)
-    R, tr, _ = receive(cfg, seed, segs)
+    R, tr, _ = receive(cfg, seed, segs, cfgs=st.cfgs)
     stats.evaluations += 1
     bad = judge_delivery(cfg, st, R, tr, cuts, bytewise, fam)
     if bytewise or any(inside(st, c) for c in cuts):
-        stats.nt((fam, cfg, wit.get("b"), wit.get("pre"), repr(wit.get("post")), tuple(cuts), bytewise))
+        stats.nt((fam, cfg, wit.get("b"), wit.get("pre"), repr(wit.get("post")), repr(wit.get("rekey")), tuple(cuts), bytewise))
     stats.outcome("delivered-intact" if not bad else "delivery-failed")
     for sig, detail in bad:
         w = dict(wit)
@@ -372,6 +395,10 @@ def judge_delivery(cfg, st, R, tr, cuts, bytewise, fam):
         shape = "other"
     else:
         phase = "keyed-packets"
+        if st.n_before_rekeyed is not None and ngot >= st.n_before_rekeyed:
+            phase = "packets-after-rekey(%s)" % ("zlib-kept" if full(st.cfgs[0])[2] == full(st.cfgs[1])[2] == b"zlib" else
+                                                 "compression-changed" if full(st.cfgs[0])[2] != full(st.cfgs[1])[2] else "no-compression")
+            cfg = st.cfgs[1]
         shape = cut_class(st, cfg, ngot, cuts, bytewise)
     what = "disconnect" if disc else cls
     detail = "%s: dispatched %d of %d payloads (%s)%s; cuts=%s; receiver wrote %r" % (
@@ -387,10 +414,14 @@ def boundary_cuts(st, cfg):
     ms = DIGEST[cfg[1]]
     out = set()
     for lab, a, b in st.marks:
-        if not (lab.startswith("post") or lab == "newkeys"):
+        if not (lab.startswith("post") or lab == "newkeys" or lab.startswith("rekeyed")):
             continue
         lbs = 8 if lab == "newkeys" else bs
         lms = 0 if lab == "newkeys" else ms
+        if lab.startswith("rekeyed"):
+            c2 = st.cfgs[1]
+            lbs = 8 if c2[0] in (b"none", b"3des-cbc", b"3des-ctr") else 16
+            lms = DIGEST[c2[1]]
         for base in (a, a + 4, a + 5, a + lbs, b - lms, b):
             for d in (-1, 0, 1):
                 c = base + d
@@ -424,6 +455,26 @@ def run_packets(stats, cfg, tier, seed):
     check_delivery(stats, cfg, st, lo, (), False, seed, "packets", wit)
     for c in boundary_cuts(st, cfg) + [st.keyed_start + 32768, st.keyed_start + 65536]:
         if c < len(st.data):
+            check_delivery(stats, cfg, st, lo, (c,), False, seed, "packets", wit)
+    # re-key in the middle of the stream: same configuration again, and a different one
+    allc = configs()
+    if len(cfg) == 3:
+        i = allc.index(cfg)
+        other = allc[(i + 2 * 7 + 1) % len(allc)]       # different MAC and compression, usually different cipher
+        flip = (cfg[0], cfg[1], b"zlib" if cfg[2] == b"none" else b"none")
+        seconds = [cfg, other, flip]
+    else:
+        seconds = [cfg, tuple(cfg[3:]) + tuple(cfg[:3])]
+    for cfg2 in seconds:
+        post, post2 = [("n", 5), ("z", 300)], [("n", 7), ("z", 300), ("n", 1)]
+        st = build_stream(cfg, (), (), [payload_bytes(s, seed) for s in post], seed,
+                          rekey=(cfg2, [payload_bytes(s, seed) for s in post2]))
+        lo = st.newkeys_start
+        wit = {"b": 0, "pre": 0, "post": [list(s) for s in post],
+               "rekey": {"cfg2": [x.decode() for x in cfg2], "post2": [list(s) for s in post2]}}
+        check_delivery(stats, cfg, st, lo, (), False, seed, "packets", wit)
+        check_delivery(stats, cfg, st, lo, (), True, seed, "packets", wit)
+        for c in boundary_cuts(st, cfg):
             check_delivery(stats, cfg, st, lo, (c,), False, seed, "packets", wit)
     # sequences
     a = (bs - 10) % bs      # padding length 4 (minimum) without compression
@@ -574,7 +625,12 @@ def replay(w):
     if w["family"] == "tamper":
         st = build_stream(cfg, (), (), post, seed)
         return check_tamper(stats, cfg, st, w["pos"], w["mask"], w["bytewise"], seed, {"post": [tuple(s) for s in w["post"]]})
-    st = build_stream(cfg, BANNERS[w.get("b", 0)], PRE[w.get("pre", 0)], post, seed)
+    rekey = None
+    if w.get("rekey"):
+        rk = w["rekey"]
+        rekey = (tuple(x if isinstance(x, bytes) else x.encode() for x in rk["cfg2"]),
+                 [payload_bytes(tuple(s), seed) for s in rk["post2"]])
+    st = build_stream(cfg, BANNERS[w.get("b", 0)], PRE[w.get("pre", 0)], post, seed, rekey=rekey)
     segs = cuts_to_segments(st, w["lo"], tuple(w["cuts"]), w["bytewise"])
-    R, tr, _ = receive(cfg, seed, segs)
+    R, tr, _ = receive(cfg, seed, segs, cfgs=st.cfgs)
     return judge_delivery(cfg, st, R, tr, tuple(w["cuts"]), w["bytewise"], w["family"])
